@@ -7,6 +7,7 @@ import structcases
 import structgen
 
 ID = "C06"
+ENV_RERUN = 40          # cases repeated from a cargo build-script environment (lib/runner.py with_build_env)
 TABLES = ["scalar", "rust_type"]      # leaf tables compared exhaustively through the hooks (coq/Check/Tables.v)
 REQUIRES = ["Agree", "StructSpec", "C06Spec", "Truth"]
 THEOREM_REQUIRES = ["C06"]
